@@ -11,6 +11,7 @@ structure CTState where
   includePrecompiles : Bool := false
   flatPanicked : Bool := false
   parity : Bool := false        -- convertParityErrors
+  precompiles : Option (List Nat) := none   -- `t.activePrecompiles` as the tracer computed it at CaptureStart (none: Istanbul+ set)
 
 def perr (s : String) : Option String := if s = "-" then none else some (s.replace "_" " ")
 
@@ -30,7 +31,7 @@ def parseTEvent (toks : List String) : Option TEvent :=
 /-- `flatCallTracer.CaptureExit` after the inner tracer's (model: `flatAfterInnerExit`) -/
 def flatAfterExit (c : CTState) (before : TState) : CTState :=
   if c.includePrecompiles then c else
-  match flatAfterInnerExit before c.st with
+  match flatAfterInnerExit before c.st (match c.precompiles with | none => isPrecompileAddr | some l => fun a => l.contains a) with
   | .ok st' => { c with st := st' }
   | _ => { c with flatPanicked := true }
 
